@@ -9,6 +9,7 @@ import (
 	"context"
 	"encoding/json"
 	"errors"
+	"flag"
 	"fmt"
 	"os"
 	"reflect"
@@ -94,6 +95,64 @@ func vBytes(name string, n int) []uint8 {
 }
 
 func vBytesN(name string, n int) []uint8 { return vBytes(name, n) }
+
+// ---- environment of the command-line tools (C19) -------------------------------
+// natively: a scratch directory, real files, os.Args and a fresh flag set
+
+var vCmdDir, vCmdOld, vCmdOutName string
+var vCmdArgs []string
+
+func vCmdBegin(outFlag string) {
+	vCmdOld, _ = os.Getwd()
+	vCmdDir, _ = os.MkdirTemp("", "vcmd")
+	os.Chdir(vCmdDir)
+	vCmdOutName = "out.dat"
+	vCmdArgs = []string{"cmd", "-" + outFlag + "=" + vCmdOutName}
+	flag.CommandLine = flag.NewFlagSet("cmd", flag.ContinueOnError)
+}
+
+func vCmdFile(name string, content []byte) {
+	if err := os.WriteFile(name, content, 0o644); err != nil {
+		panic(err)
+	}
+}
+
+func vCmdFlag(name, value string) {
+	vCmdArgs = append(vCmdArgs, "-"+name+"="+value)
+	os.Args = vCmdArgs
+}
+
+func vCmdFlagUint(name string, v uint) {
+	vCmdArgs = append(vCmdArgs, fmt.Sprintf("-%s=%d", name, v))
+	os.Args = vCmdArgs
+}
+
+func vCmdEnd() {
+	os.Chdir(vCmdOld)
+	os.RemoveAll(vCmdDir)
+}
+
+func vOutData() []byte {
+	b, err := os.ReadFile(vCmdDir + "/" + vCmdOutName)
+	if err != nil {
+		return nil
+	}
+	return b
+}
+
+func vOutLen() int      { return len(vOutData()) }
+func vOutFlushed() bool { _, err := os.Stat(vCmdDir + "/" + vCmdOutName); return err == nil }
+func vOutByte(i int) uint8 {
+	d := vOutData()
+	if i >= len(d) {
+		return 0
+	}
+	return d[i]
+}
+func vOutEqAt(i int, b []byte, j int) bool {
+	d := vOutData()
+	return i+j < len(d) && j < len(b) && d[i+j] == b[j]
+}
 
 // vFile reads a file of the repository's working tree.
 func vFile(rel string) []uint8 {
